@@ -75,3 +75,10 @@ pub fn c16_shares_are_validated_when_combined(ss: &[SignatureShare], ps: &[Publi
         assert(egshares_raw(es@)[i].sdl() is Some);
     }
 }
+
+/// proof commitments have an exact byte length: every other length is refused
+pub fn c16_commitment_import(bytes: &[u8])
+{
+    let r = ProofCommitment::try_from(bytes);
+    assert(r is Ok ==> bytes@.len() == sig_len() + 1);
+}
